@@ -5,13 +5,14 @@ package node
 import (
 	"context"
 	"crypto/sha256"
-	"strings"
-	"time"
-	"os"
 	"database/sql"
 	"fmt"
+	"github.com/pegnet/pegnet/modules/grader"
 	"math/rand"
+	"os"
+	"strings"
 	"testing"
+	"time"
 
 	"github.com/Factom-Asset-Tokens/factom"
 	"github.com/pegnet/pegnetd/fat/fat2"
@@ -115,7 +116,6 @@ func confRandomCredits(t testing.TB, d *Pegnetd, tx *sql.Tx, r *rand.Rand, n int
 	}
 }
 
-
 func cloneTable(a confBalTable) confBalTable {
 	o := confBalTable{}
 	for k, v := range a {
@@ -160,3 +160,16 @@ func confHash(lines []string) string {
 	s := sha256.Sum256([]byte(strings.Join(lines, "\n")))
 	return fmt.Sprintf("%x", s[:8])
 }
+
+// a stand-in for the grader's result without winners (the pn_winners rows need real graded records)
+type confGraded struct {
+	grader.GradedBlock
+	short []string
+}
+
+func (g confGraded) WinnersShortHashes() []string  { return g.short }
+func (g confGraded) Winners() []*grader.GradingOPR { return nil }
+func (g confGraded) Graded() []*grader.GradingOPR  { return nil }
+func (g confGraded) Version() uint8                { return 5 }
+func (g confGraded) Cutoff() int                   { return 50 }
+func (g confGraded) Count() int                    { return 0 }
